@@ -7,6 +7,9 @@
 //	             app/version, unknown paths
 //	customquery  Query custom/<module>/<route> at historical and latest heights
 //	simulate     Query app/simulate of valid state-changing transactions
+//	simupgrade   Query app/simulate of MsgUpgrade transactions of the gov/upgrade owner (FEATURE upgrades that
+//	             re-schedule a named feature), correctly signed or carrying the owner's public key with a junk
+//	             signature (the ante handler skips signature verification in simulate mode)
 //	none         nothing (the twins must agree: sanity of the harness itself)
 //
 // Per block both print app hash, DeliverTx codes, validator updates, abstract-state digest and raw
@@ -17,17 +20,23 @@
 package main
 
 import (
+	"crypto/sha256"
+	"encoding/hex"
 	"flag"
 	"fmt"
 	"os"
+	"strconv"
 	"strings"
 	"sync"
 	"time"
 
 	"github.com/pokt-network/pocket-core/app"
+	"github.com/pokt-network/pocket-core/codec"
 	sdk "github.com/pokt-network/pocket-core/types"
 	"github.com/pokt-network/pocket-core/x/auth"
+	appsTypes "github.com/pokt-network/pocket-core/x/apps/types"
 	authTypes "github.com/pokt-network/pocket-core/x/auth/types"
+	govTypes "github.com/pokt-network/pocket-core/x/gov/types"
 	abci "github.com/tendermint/tendermint/abci/types"
 	dbm "github.com/tendermint/tm-db"
 
@@ -36,13 +45,24 @@ import (
 	"verifharness/internal/gen"
 )
 
-var kinds = []string{"simulate", "checktx", "query", "customquery", "simulate", "checktx", "customquery", "none"}
+var kinds = []string{"simulate", "checktx", "query", "customquery", "simupgrade", "simulate", "checktx", "customquery", "none"}
 
 const chainID = "verif"
 
 const baseAppStake = int64(10000000000)
 
 var childEnv = []string{"GOMAXPROCS=2"}
+
+// upgradeGlobals renders the process globals that gate consensus rules (codec.UpgradeHeight,
+// codec.OldUpgradeHeight, codec.UpgradeFeatureMap) canonically.
+func upgradeGlobals() string {
+	var fs []string
+	for _, k := range chain.SortedKeys(codec.UpgradeFeatureMap) {
+		fs = append(fs, fmt.Sprintf("%s:%d", k, codec.UpgradeFeatureMap[k]))
+	}
+	h := sha256.Sum256([]byte(strings.Join(fs, ",")))
+	return fmt.Sprintf("%d/%d/%s", codec.UpgradeHeight, codec.OldUpgradeHeight, hex.EncodeToString(h[:4]))
+}
 
 func b01(b bool) int {
 	if b {
@@ -61,6 +81,9 @@ type env struct {
 func boot() *env {
 	chain.ModernGlobals()
 	chainx.InitSessionCache(100)
+	if c, err := strconv.Atoi(os.Getenv("C11_APPCAP")); err == nil && c > 0 {
+		appsTypes.InitConfig(int64(c)) // experiment switch: tiny ApplicationCache (evictions)
+	}
 	w, o := chain.DefaultWorld(chainID, 3, 2, 2, 4)
 	wAct, _ := chain.DefaultWorld(chainID, 3, 2, 2, 4)
 	o.Mutate = func(g *chain.Genesis) {
@@ -102,6 +125,26 @@ func simulate(n *chain.Node, bz []byte) (uint32, string) {
 		fmt.Fprintf(os.Stderr, "simulate code=%d/%s log=%s\n", r.Code, cs, l)
 	}
 	return uint32(r.Code), cs
+}
+
+// withPubKey replaces the public key carried by the signature of a transaction (the signature bytes
+// stay those of another key: a junk signature for this public key).
+func withPubKey(bz []byte, k chain.Key, height int64) []byte {
+	cdc := app.Codec()
+	tx, err := auth.DefaultTxDecoder(cdc)(bz, height)
+	if err != nil {
+		return bz
+	}
+	st, ok := tx.(authTypes.StdTx)
+	if !ok {
+		return bz
+	}
+	st.Signature = authTypes.StdSignature{PublicKey: k.Pub, Signature: st.Signature.Signature}
+	out, e2 := auth.DefaultTxEncoder(cdc)(st, height)
+	if e2 != nil {
+		return bz
+	}
+	return out
 }
 
 func unsigned(bz []byte, height int64) []byte {
@@ -151,6 +194,7 @@ type actor struct {
 	nActs  int
 	curTxs [][]byte
 	keys   []string // raw keys seen ("store/keyhex")
+	gpre   string   // upgrade globals before the current call
 }
 
 func (a *actor) nextEnt() int64 { a.ent++; return 800000000 + a.ent }
@@ -162,8 +206,8 @@ func (a *actor) emit(point string, desc string, code string, before map[string]s
 	if changed {
 		diff = strings.Join(chainx.DiffKeys(before, after, 3), ",")
 	}
-	fmt.Printf("act %s %s %s => code=%s changed=%d %s diff=%s cache=%s store=%s\n", a.kind, point, desc, code, b01(changed), marks, diff,
-		chainx.AppCacheDump(a.e.run.N), chainx.AppStoreDump(a.e.run.N))
+	fmt.Printf("act %s %s %s => code=%s changed=%d %s diff=%s cache=%s store=%s gpre=%s gpost=%s\n", a.kind, point, desc, code, b01(changed), marks, diff,
+		chainx.AppCacheDump(a.e.run.N), chainx.AppStoreDump(a.e.run.N), a.gpre, upgradeGlobals())
 	a.nActs++
 }
 
@@ -177,6 +221,7 @@ func (a *actor) act(point string, i int) {
 	}
 	for c := 1 + r.Intn(2); c > 0; c-- {
 		before := chainx.RawSnapshot(n)
+		a.gpre = upgradeGlobals()
 		if len(a.keys) < 200 {
 			a.keys = chain.SortedKeys(before) // canonical order: the run must replay exactly
 		}
@@ -184,7 +229,12 @@ func (a *actor) act(point string, i int) {
 		case "checktx":
 			var bz []byte
 			desc := ""
-			switch r.Intn(6) {
+			switch r.Intn(8) {
+			case 6, 7:
+				// transfer-shaped application MsgStake with a valid signature: the ante handler's IsMsgAppTransfer
+				// looks the signer up through the ApplicationCache under the CheckTx context
+				old := a.e.w.Apps[r.Intn(len(a.e.w.Apps))]
+				bz, desc = chain.SignTx(chainID, old, chain.MsgAppStake(chain.KeyN(7000+uint64(a.nextEnt()%50)), 0, nil), chain.DefaultFee, a.nextEnt(), ""), "apptransfer-shaped"
 			case 0:
 				d := a.e.wAct.GenTx(r)
 				bz, desc = unsigned(d.Bytes, n.Height), "unsigned:"+d.Kind
@@ -251,6 +301,25 @@ func (a *actor) act(point string, i int) {
 			q.Path, q.Data = rt.Path, rt.Data
 			code := queryRecover(n, q)
 			a.emit(point, fmt.Sprintf("%s@%d", rt.Path, q.Height), code, before, "ante=- msg=-")
+		case "simupgrade":
+			// a FEATURE upgrade that re-schedules one named feature far into the future (= switches it off on a
+			// node that believes it), "from" the gov/upgrade owner
+			owner := a.e.w.Owner
+			feats := []string{codec.TxCacheEnhancementKey, codec.TxCacheEnhancementKey, codec.TxCacheEnhancementKey, codec.VEDITKey, codec.RSCALKey, codec.ReplayBurnKey, codec.AppTransferKey, codec.RewardDelegatorsKey, codec.MaxRelayProtKey}
+			f := feats[r.Intn(len(feats))]
+			up := govTypes.Upgrade{Height: n.Height + 1, Version: "FEATURE", Features: []string{fmt.Sprintf("%s:%d", f, 1000000+r.Intn(10))}}
+			desc := "feature:" + f
+			var bz []byte
+			if r.Bool() {
+				bz = chain.SignTx(chainID, owner, chain.MsgUpgrade(owner.Addr, up), chain.DefaultFee, a.nextEnt(), "")
+				desc += ":signed"
+			} else {
+				// anybody: signed with a stranger's key, then the owner's PUBLIC key put into the signature
+				bz = withPubKey(chain.SignTx(chainID, a.e.w.Accts[0], chain.MsgUpgrade(owner.Addr, up), chain.DefaultFee, a.nextEnt(), ""), owner, n.Height)
+				desc += ":junksig"
+			}
+			code, cs := simulate(n, bz)
+			a.emit(point, desc, fmt.Sprintf("%d/%s", code, cs), before, "ante=- msg=-")
 		case "simulate":
 			var bz []byte
 			desc, marks := "", "ante=- msg=-"
@@ -332,6 +401,23 @@ func genHistory(hseed uint64, blocks int) *chainx.History {
 			ks = append(ks, d.Kind)
 			ds = append(ds, d.Desc)
 		}
+		if bi+1 >= 3 && r.Chance(1, 3) { // a valid send delivered twice in one block: the second copy is refused (duplicate) while REDUP is active
+			from, to := w.Accts[r.Intn(len(w.Accts))], w.Vals[r.Intn(len(w.Vals))]
+			tx := chain.SignTx(chainID, from, chain.MsgSend(from.Addr, to.Addr, 1000), chain.DefaultFee, 650000000+int64(bi), "")
+			b.Txs = append(b.Txs, tx, tx)
+			ks = append(ks, "send-twice", "send-twice+dup")
+			ds = append(ds, "send-twice", "send-twice-dup")
+		}
+		if bi+1 >= 3 && r.Chance(1, 4) {
+			// application transfer (MsgStake with zero value signed by the current owner) followed, in the same block,
+			// by a fresh stake for the old key: the second outcome depends on the old record being gone
+			old := w.Apps[r.Intn(len(w.Apps))]
+			nk := chain.KeyN(6000 + uint64(bi))
+			b.Txs = append(b.Txs, chain.SignTx(chainID, old, chain.MsgAppStake(nk, 0, nil), chain.DefaultFee, 660000000+int64(bi), ""),
+				chain.SignTx(chainID, old, chain.MsgAppStake(old, baseAppStake, []string{chain.ChainHash}), chain.DefaultFee, 670000000+int64(bi), ""))
+			ks = append(ks, "apptransfer", "apprestake")
+			ds = append(ds, "apptransfer", "apprestake")
+		}
 		if bi+1 >= 3 && r.Chance(1, 2) { // application edit-stake around the current stake: its outcome depends on the stored record
 			k := w.Apps[r.Intn(len(w.Apps))]
 			amt := baseAppStake + int64(r.Intn(6))*1000000
@@ -391,7 +477,7 @@ func twin(role, kind string, hseed uint64, histPath string) {
 		}
 		res := e.run.RunBlock(b, hook)
 		st := n.Dump(nil)
-		fmt.Printf("blk %d => %x %s %s %s %s\n", res.Height, res.AppHash, chainx.Codes(res), chainx.ValUpdates(res), chainx.StateDigest(st), chainx.RawDigest(n))
+		fmt.Printf("blk %d => %x %s %s %s %s %s\n", res.Height, res.AppHash, chainx.Codes(res), chainx.ValUpdates(res), chainx.StateDigest(st), chainx.RawDigest(n), upgradeGlobals())
 	}
 	fmt.Printf("done %d\n", a.nActs)
 }
